@@ -377,7 +377,20 @@ def evaluate(ctx, console, table, avail, widths, lines, padded, spec, text_cells
             smin += max(1, 1 + pw, (c.min_width or 0) + pw)
         else:
             smin += max(1, (c.min_width + pw) if c.min_width is not None else 1)
-    ratio_ok = all(c.ratio is None or c.ratio >= 1 for c in table.columns)
+    ratio_ok = all(c.ratio is None or c.ratio >= 0 for c in table.columns)   # a zero ratio is a legal share ("what is left")
+
+    def ratio_zero_finding(too_wide):
+        """narrow classifier: an EXPANDING table with a zero-ratio flexible column that is too wide by at most one cell per such
+        column (each was handed 0 cells and got one back from the re-measure), or whose zero-ratio column was left with 0 cells"""
+        zero_cols = [i for i, c in enumerate(table.columns) if c.flexible and not c.ratio]
+        if not (table.expand and zero_cols):
+            return None
+        if too_wide and 0 < sum(widths) - max_width <= len(zero_cols):
+            return "table-ratio-zero-column"
+        if not too_wide and any(widths[i] < 1 for i in zero_cols):
+            return "table-ratio-zero-column"
+        return None
+
     in_domain = max_width >= smin and ratio_ok and all(p >= 0 for p in table.padding)
     ctx.note("table:domain:" + ("in" if in_domain else "below-structural-minimum-or-zero-ratio"))
     # no column may get a negative width, at ANY available width (a negative width breaks the rectangle: `" " * -3` is empty
@@ -430,13 +443,18 @@ def evaluate(ctx, console, table, avail, widths, lines, padded, spec, text_cells
             # the widths are what a re-measure returns (a fixed point of `_measure_column(..., width).maximum or 1`), the natural
             # widths did not fit (so the collapse block ran) and the total is short: `table_width` was not refreshed
             finding = "table-expand-stale-width"
+        elif not ok and sum(widths) > max_width:
+            finding = ratio_zero_finding(True)
         ctx.check(ok, "table_expand_exact", spec,
                   f"expanding table is {table_width} cells wide, asked for {max_width + extra} (widths {widths}, natural {first})", finding=finding)
     # --- width_fits
     if in_domain and all_wrappable(table) and no_col_min and max_width >= ncols:
-        ctx.check(sum(widths) <= max_width, "width_fits", spec, f"table is {table_width} cells wide, {max_width + extra} available (widths {widths})")
+        ok = sum(widths) <= max_width
+        ctx.check(ok, "width_fits", spec, f"table is {table_width} cells wide, {max_width + extra} available (widths {widths})",
+                  finding=None if ok else ratio_zero_finding(True))
     if in_domain:
-        ctx.check(all(w >= 1 for w in widths), "widths_positive", spec, f"a column width below 1: {widths}")
+        ok = all(w >= 1 for w in widths)
+        ctx.check(ok, "widths_positive", spec, f"a column width below 1: {widths}", finding=None if ok else ratio_zero_finding(False))
     # --- rows_in_order + fold_cells_in_column: every row's shaped cell lines appear, in order, on lines of their own,
     #     each cell inside its column's span (borders: `edge`/`div` characters of width 1 around / between the spans)
     row_cells = list(zip(*padded))
